@@ -18,7 +18,9 @@ import (
 type CLIStep struct {
 	// Op: gen, default (gen without the sub-command word), diff, check, show,
 	// switch (rewrite a package's sources as another kind/variant), delete
-	// (remove the output file), damage (replace the output file)
+	// (remove the output file), damage (replace the output file), switchshared
+	// (rewrite the package "shared", a dependency of the packages marked
+	// Shared, as variant Variant: their own files stay untouched)
 	Op      string  `json:"op"`
 	Opts    cliOpts `json:"opts"`
 	Scope   []int   `json:"scope,omitempty"` // package indices named on the command line (nil = ./...)
@@ -32,6 +34,8 @@ type CLIStep struct {
 type CLICase struct {
 	Pkgs  []cliPkg  `json:"pkgs"`
 	Steps []CLIStep `json:"steps"`
+	// SharedVar is the initial variant of the package "shared" (see cliPkg.Shared).
+	SharedVar int `json:"sharedvar,omitempty"`
 }
 
 func (cs *CLICase) key() string { b, _ := json.Marshal(cs); return HashString(string(b)) }
@@ -84,8 +88,10 @@ func genCLI(history bool) *rapid.Generator[*CLICase] {
 			if history && i == 0 {
 				k = "ok"
 			}
-			cs.Pkgs = append(cs.Pkgs, cliPkg{Name: fmt.Sprintf("p%c", 'a'+i), Kind: k, Variant: rapid.IntRange(0, 9).Draw(t, "variant"), Tagged: !history && rapid.IntRange(0, 3).Draw(t, "tagged") == 0})
+			cs.Pkgs = append(cs.Pkgs, cliPkg{Name: fmt.Sprintf("p%c", 'a'+i), Kind: k, Variant: rapid.IntRange(0, 9).Draw(t, "variant"), Tagged: !history && rapid.IntRange(0, 3).Draw(t, "tagged") == 0,
+				LineDir: rapid.IntRange(0, 99).Draw(t, "linedir") < 15, Shared: rapid.IntRange(0, 99).Draw(t, "shared") < 35})
 		}
+		cs.SharedVar = rapid.IntRange(0, 2).Draw(t, "sharedvar")
 		drawOpts := func() cliOpts {
 			o := cliOpts{}
 			if history {
@@ -117,7 +123,7 @@ func genCLI(history bool) *rapid.Generator[*CLICase] {
 		ops := []string{"gen", "gen", "default", "diff", "diff", "check", "show", "damage", "delete"}
 		if history {
 			nsteps = rapid.IntRange(4, 14).Draw(t, "nsteps")
-			ops = []string{"gen", "gen", "gen", "diff", "diff", "check", "switch", "switch", "delete", "damage", "damage", "damage"}
+			ops = []string{"gen", "gen", "gen", "diff", "diff", "check", "switch", "switch", "delete", "damage", "damage", "damage", "switchshared", "switchshared"}
 		}
 		for i := 0; i < nsteps; i++ {
 			st := CLIStep{Op: rapid.SampledFrom(ops).Draw(t, "op")}
@@ -132,6 +138,8 @@ func genCLI(history bool) *rapid.Generator[*CLICase] {
 				st.Pkg = rapid.IntRange(0, np-1).Draw(t, "pkg")
 				st.Kind = rapid.SampledFrom([]string{"ok", "ok", "ok", "fail-missing", "fail-multi", "fail-partial", "noinj"}).Draw(t, "newkind")
 				st.Variant = rapid.IntRange(0, 9).Draw(t, "newvariant")
+			case "switchshared":
+				st.Variant = rapid.IntRange(0, 2).Draw(t, "sharedvariant")
 			case "delete":
 				st.Pkg = rapid.IntRange(0, np-1).Draw(t, "pkg")
 			case "damage":
@@ -148,7 +156,7 @@ func genCLI(history bool) *rapid.Generator[*CLICase] {
 // against the model of exit status and file-system footprint.
 func runCLICase(c *Ctx, prop string, cs *CLICase) *Fail {
 	pkgs := append([]cliPkg(nil), cs.Pkgs...)
-	w, err := newCLIWorld(c, pkgs)
+	w, err := newCLIWorld(c, pkgs, cs.SharedVar)
 	if err != nil {
 		c.Inconclusive("cli world: " + err.Error())
 		return nil
@@ -160,6 +168,16 @@ func runCLICase(c *Ctx, prop string, cs *CLICase) *Fail {
 		before := w.snapshot()
 		where := fmt.Sprintf("step %d (%s)", si, st.Op)
 		switch st.Op {
+		case "switchshared":
+			w.sharedVar = st.Variant
+			if err := w.writeShared(w.dir); err != nil {
+				c.Inconclusive(err.Error())
+				return nil
+			}
+			for i := range pkgs {
+				lastGenOK[i] = false
+			}
+			continue
 		case "switch":
 			pkgs[st.Pkg].Kind, pkgs[st.Pkg].Variant = st.Kind, st.Variant
 			w.pkgs = pkgs
@@ -177,7 +195,7 @@ func runCLICase(c *Ctx, prop string, cs *CLICase) *Fail {
 			continue
 		case "damage":
 			p := pkgs[st.Pkg]
-			fresh, err := w.freshContent(cliPkg{Name: p.Name, Kind: "ok", Variant: p.Variant}, cliOpts{})
+			fresh, err := w.freshContent(cliPkg{Name: p.Name, Kind: "ok", Variant: p.Variant, LineDir: p.LineDir, Shared: p.Shared}, cliOpts{})
 			if err != nil {
 				c.Inconclusive(err.Error())
 				return nil
@@ -381,7 +399,7 @@ func cliProperty(id string, history bool, rule string) {
 				f := runCLICase(c, id, cs)
 				interesting := 0
 				for _, st := range cs.Steps {
-					if st.Op == "damage" || st.Op == "switch" || st.Opts != (cliOpts{}) {
+					if st.Op == "damage" || st.Op == "switch" || st.Op == "switchshared" || st.Opts != (cliOpts{}) {
 						interesting++
 					}
 				}
